@@ -10,7 +10,7 @@ class Rec:
         self.toks = line_in.split()
         self.op = self.toks[0] if self.toks else ''
         self.layer = None
-        if self.op in ('send', 'frame', 'process', 'recv', 'stop_sending', 'stop_receiving', 'reset') and len(self.toks) > 1:
+        if self.op in ('send', 'frame', 'process', 'recv', 'stop_sending', 'stop_receiving', 'reset', 'genclose') and len(self.toks) > 1:
             self.layer = int(self.toks[1])
         evs, res, st = parse_out(line_out)
         self.events = [parse_event(e) for e in evs]
